@@ -285,6 +285,51 @@ func ruleC07Deleg(e *Env) {
 		if err == nil {
 			got = canonVal(got)
 		}
+		if err != nil && (construct == "Sub" || construct == "DaysBetween") {
+			// a fast path may ask whether the two dates are the same day: evaluate under both answers. With equal fields
+			// the two times are equal, so 0 is the documented difference as well.
+			eqKey := func(x, y pred.Val) (string, bool) {
+				xs, ys := x.String(), y.String()
+				if strings.HasPrefix(xs, "d.") && strings.HasPrefix(ys, "e.") && xs[2:] == ys[2:] {
+					return "same " + xs[2:], true
+				}
+				if strings.HasPrefix(xs, "e.") && strings.HasPrefix(ys, "d.") && xs[2:] == ys[2:] {
+					return "same " + xs[2:], true
+				}
+				return "", false
+			}
+			log = nil
+			leaves, terr := extractTree(e.P.SSA, fn, func() []pred.Val { return args }, sums, nil, eqKey, binDomain)
+			if terr == nil && len(leaves) > 0 {
+				bad := ""
+				for _, lf := range leaves {
+					if lf.Err != nil || lf.Out.Panic {
+						bad = "not evaluable"
+						break
+					}
+					r := canonVal(lf.Out.Ret).String()
+					allSame := len(lf.Assign) == 3
+					for _, v := range lf.Assign {
+						if v != 0 {
+							allSame = false
+						}
+					}
+					subTerm := "(time.Time).Sub(" + a.canonTime("d") + "," + a.canonTime("e") + ")"
+					if oneOf(r, want) || allSame && (r == "0" || oneOf(r, strings.ReplaceAll(want, subTerm, "0"))) {
+						continue
+					}
+					bad = fmt.Sprintf("computes %s {%s}, the documented delegation is %s", short(r), lf.String(), short(want))
+				}
+				if bad == "" {
+					e.S.Ok(rule, site, construct, "= "+short(want)+" (a same-day fast path answers 0, the difference of equal times)", e.Pos(fn))
+					return
+				}
+				if bad != "not evaluable" {
+					e.S.Bad(rule, site, construct, bad, e.Pos(fn), "")
+					return
+				}
+			}
+		}
 		switch {
 		case err != nil:
 			e.S.Unk(rule, site, construct, "not evaluable symbolically: "+err.Error(), e.Pos(fn))
